@@ -122,6 +122,7 @@ pub struct Facts {
     pub starts: usize,
     pub starts_after_interrupt: Option<usize>,
     pub interrupt_before_first_poll: bool,
+    pub nested_runs: usize,
     /// The signal was sent by a user future from inside a poll.
     pub mid_poll_signal: bool,
     /// Starts after a mid-poll signal of functions that were ready when it was sent (excused).
@@ -148,7 +149,7 @@ fn mask_of<M: Mask>(n: usize, f: impl Fn(usize) -> bool) -> M {
 /// Function id an event is about, if any.
 fn ev_id(e: &Ev) -> Option<usize> {
     match e {
-        Ev::Start(i) | Ev::End(i) | Ev::Release(i) | Ev::Yield(i) | Ev::YieldInterrupted(i) | Ev::Drop(i) => Some(*i as usize),
+        Ev::Start(i) | Ev::End(i) | Ev::Release(i) | Ev::SelfWake(i) | Ev::Yield(i) | Ev::YieldInterrupted(i) | Ev::Drop(i) => Some(*i as usize),
         _ => None,
     }
 }
@@ -183,6 +184,9 @@ pub fn analyze_s<M: Mask>(info: &Info<M>, cfg: &RunCfg, res: &RunRes, out: &mut 
     let mut f = Facts::default();
     let mut int_at: Option<usize> = None;
     let mut ready_at_mid: Option<M> = None;
+    // user futures that returned within the current poll so far / before a mid-poll signal
+    let mut ends_in_poll = 0usize;
+    let mut mid_allowance = 0usize;
     let mut polled = false;
     let mut releases_in_window = 0usize;
     let fail_mask: M = mask_of(n, |i| api.is_try() && cfg.fail.get(i).copied().unwrap_or(false));
@@ -220,6 +224,7 @@ pub fn analyze_s<M: Mask>(info: &Info<M>, cfg: &RunCfg, res: &RunRes, out: &mut 
                 f.max_inflight = f.max_inflight.max(inflight);
             }
             Ev::End(i) => {
+                ends_in_poll += 1;
                 ended.set(i as usize);
                 inflight = inflight.saturating_sub(1);
             }
@@ -240,6 +245,10 @@ pub fn analyze_s<M: Mask>(info: &Info<M>, cfg: &RunCfg, res: &RunRes, out: &mut 
                 int_at = Some(start_order.len());
                 f.interrupt_before_first_poll = false;
                 f.mid_poll_signal = true;
+                // every user future that returned earlier in this poll (and the one that sends the
+                // signal as it returns) cut one round of polling short, which can leave one function
+                // dequeued but not yet started
+                mid_allowance = ends_in_poll + matches!(res.ev.get(k + 1), Some(Ev::End(_))) as usize;
                 let mut m = M::zero(n);
                 for i in 0..n {
                     if !started.get(i) && !info.built_direct(i, rev).and_not(&ended).any() {
@@ -250,6 +259,7 @@ pub fn analyze_s<M: Mask>(info: &Info<M>, cfg: &RunCfg, res: &RunRes, out: &mut 
             }
             Ev::Poll { .. } => {
                 polled = true;
+                ends_in_poll = 0;
                 releases_in_window = 0;
             }
             Ev::Pending { woken } => {
@@ -270,6 +280,48 @@ pub fn analyze_s<M: Mask>(info: &Info<M>, cfg: &RunCfg, res: &RunRes, out: &mut 
             }
             _ => {}
         }
+    }
+    // nested runs driven by user futures of this run: each is a run of its own (C20) and must be
+    // complete, exactly-once and in dependency order like any other
+    for nr in &res.nested {
+        f.nested_runs += 1;
+        let what = ["", "for_each_concurrent", "fold_async", "stream", "for_each_concurrent (functions yield twice)", "try_for_each_concurrent"][nr.kind.min(5) as usize];
+        let mut nst = M::zero(n);
+        let mut nen = M::zero(n);
+        for &e in &nr.order {
+            let i = (e.unsigned_abs() as usize).saturating_sub(1);
+            if i >= n {
+                continue;
+            }
+            if e > 0 {
+                if nst.get(i) {
+                    v(out, 3, format!("nested {what} run (driven by a user future of this run): function {i} handed out twice"));
+                    v(out, 20, format!("nested {what} run: function {i} handed out twice"));
+                }
+                let missing = info.built_direct(i, false).and_not(&nen);
+                if missing.any() {
+                    v(out, 2, format!("nested {what} run (driven by a user future of this run): function {i} started before {:?} finished", missing.list()));
+                    v(out, 20, format!("nested {what} run: function {i} started before {:?} finished", missing.list()));
+                    if info.any_conflict {
+                        v(out, 1, format!("nested {what} run: function {i} started before its conflicting predecessors {:?} finished", missing.list()));
+                    }
+                }
+                nst.set(i);
+            } else {
+                nen.set(i);
+            }
+        }
+        if !nr.completed || nst.count() != n {
+            let missing: Vec<usize> = (0..n).filter(|i| !nst.get(*i)).collect();
+            v(out, 4, format!("nested {what} run driven by a user future of this run did not return (never handed out {missing:?})"));
+            v(out, 3, format!("nested {what} run: clean run never hands out {missing:?}"));
+            v(out, 20, format!("nested {what} run did not return (never handed out {missing:?})"));
+        }
+    }
+    if !res.nested.is_empty() && !matches!(res.status, Status::Returned | Status::Aborted) {
+        v(out, 20, format!("run with a nested run inside one of its user futures: {:?}", res.status));
+        // the rest of this run comes after a completed run on the same graph value
+        v(out, 15, format!("run that continues after a nested run completed on the same graph value: {:?}", res.status));
     }
     f.starts = start_order.len();
     f.all_started = started.count() == n;
@@ -376,6 +428,9 @@ pub fn analyze_s<M: Mask>(info: &Info<M>, cfg: &RunCfg, res: &RunRes, out: &mut 
             Strat::NextN(m) => m as usize,
             _ => usize::MAX,
         };
+        if ready_at_mid.is_some() && concurrent && bound != usize::MAX && start_order.len() - k > bound + mid_allowance {
+            v(out, 8, format!("{} functions started after a signal sent from inside the poll, bound is {bound} (+{mid_allowance} that may have been taken off the ready queue already: one per user future that returned earlier in that poll) ({:?}, include={})", start_order.len() - k, cfg.strat, cfg.include));
+        }
         if after > bound {
             v(out, 8, format!("{after} functions started after the interrupt, bound is {bound} ({:?}, include={}, before first poll={})", cfg.strat, cfg.include, f.interrupt_before_first_poll));
         }
